@@ -98,12 +98,27 @@ def full_validator(repo_root):
     os.chdir(repo_root)
     from validation.schema_validator import SchemaValidator
 
-    def verdict(doc):
+    shared = {"v": SchemaValidator()}
+
+    def once(v, doc):
         try:
-            errs = SchemaValidator().validate(schema_dict=copy.deepcopy(doc))
+            errs = v.validate(schema_dict=copy.deepcopy(doc))
         except BaseException:
             return "raise"
         return "accept" if errs == [] else "reject"
+
+    def verdict(doc):
+        fresh = once(SchemaValidator(), doc)
+        # ... and on the instance this worker keeps using for every document of its chunk (documents arrive in case
+        # order): a document accepted THERE is accepted by the validator
+        if doc is None:
+            return fresh        # validate(schema_dict=None) means "no argument": an instance re-validates what it holds
+        reused = once(shared["v"], doc)
+        if reused != fresh:
+            shared["v"] = SchemaValidator()
+            if reused == "accept":
+                return "accept"
+        return fresh
     return verdict
 
 
@@ -667,6 +682,20 @@ def alias_collision_cases(repo_root):
                 d.setdefault("checkpoints", []).append(cp)
                 cases.append({"doc": d, "kind": "alias_collision:" + what, "base": name,
                               "path": "checkpoints[+] alias=" + a, "inert": False})
+    return cases
+
+
+def root_cases(repo_root):
+    """Documents whose root is empty or no object at all, each placed right after a conformant document (the complete
+    validator is also asked on an instance that has just validated that one)."""
+    bases = base_documents(repo_root)
+    acc = run_verdicts(repo_root, [b[1] for b in bases], mode="--full")
+    good = [b for b, v in zip(bases, acc) if v == "accept"][:3]
+    cases = []
+    for name, doc in good:
+        for root in ({}, [], 0, False, "", 1.5, "x", [1], [{}], {"standard": "only"}, True):
+            cases.append({"doc": copy.deepcopy(doc), "kind": "control", "base": name, "path": "(unchanged)", "inert": True})
+            cases.append({"doc": root, "kind": "root", "base": name, "path": "root := " + json.dumps(root), "inert": False})
     return cases
 
 
